@@ -21,14 +21,15 @@ FORMS = ["int", "float", "complex", "str", "bytes", "bool", "None", "object", "A
          "tuple[()]", "tuple[int]", "tuple[int, str]", "tuple[str, int]", "tuple[int, ...]", "tuple[str, ...]",
          "Callable[[], int]", "Callable[[int], str]", "Callable[..., Any]"]
 # user generics: Sub passes its parameter through, Tagged and Pair re-map their base's parameter
-GENERIC_FORMS = ["Box[int]", "Box[str]", "Sub[int]", "Sub[str]", "Tagged[int]", "Tagged[str]", "Pair[int]", "Box[tuple[int, int]]"]
+GENERIC_FORMS = ["Box[int]", "Box[str]", "Sub[int]", "Sub[str]", "Tagged[int]", "Tagged[str]", "Pair[int]", "Box[tuple[int, int]]",
+                 "IntBox", "IntBox2"]   # bare (non-generic) subclasses of a parametrised generic, one and two levels down
 CORE = ["int", "str", "None", "A", "B", "list[int]", "list[str]", "object"]
 
 HEADER = ("from typing import Any, Callable, Generic, Literal, TypeVar, Union, overload\n\n"
           "T = TypeVar('T')\n"
           "class A: ...\nclass B(A): ...\nclass C: ...\nclass D(B): ...\nclass E(A): ...\n"
           "class Box(Generic[T]): ...\nclass Sub(Box[T]): ...\nclass Tagged(Box[int], Generic[T]): ...\n"
-          "class Pair(Box[tuple[T, T]]): ...\n\n")
+          "class Pair(Box[tuple[T, T]]): ...\nclass IntBox(Box[int]): ...\nclass IntBox2(IntBox): ...\n\n")
 
 OPTIONS = [
     ("lossless", dict(lossy=False, use_abcs=False, max_union=7, remove_mutable=False), True),
@@ -158,7 +159,13 @@ def universe():
   class Pair(Box):     # Pair(Box[tuple[T, T]])
     def __vk_view__(self, base):
       return {"Box": [[self.v]], "Pair": [list(self.v)]}.get(base)
-  ns = {"A": A, "B": B, "C": C, "D": D, "E": E, "Box": Box, "Sub": Sub, "Tagged": Tagged, "Pair": Pair}
+  class IntBox(Box):   # IntBox(Box[int]): not generic itself
+    def __vk_view__(self, base):
+      return {"Box": [[self.v]], "IntBox": [], "IntBox2": []}.get(base)
+  class IntBox2(IntBox):
+    pass
+  ns = {"A": A, "B": B, "C": C, "D": D, "E": E, "Box": Box, "Sub": Sub, "Tagged": Tagged, "Pair": Pair,
+        "IntBox": IntBox, "IntBox2": IntBox2}
   vals = [0, 1, True, False, 1.5, 1j, "a", "", b"b", None, object(),
           A(), B(), C(), D(), E(), A, B, C, D, E, int, str, type, "x", "y",
           [], [1], ["a"], [1, "a"], [None], [1.5], [A()], [B()], [C()], [[1]], [["a"]], [[]], [(1, "a")], [True],
@@ -167,7 +174,7 @@ def universe():
           set(), {1}, {"a"}, {1, "a"}, frozenset([1]),
           (lambda: 0), (lambda a: a), (lambda a, b: a), len,
           Box(1), Box("a"), Box(None), Box((1, 2)), Box(("a", "b")), Sub(1), Sub("a"),
-          Tagged(1, 1), Tagged(1, "a"), Tagged(True, None), Pair((1, 2)), Pair(("a", "b"))]
+          Tagged(1, 1), Tagged(1, "a"), Tagged(True, None), Pair((1, 2)), Pair(("a", "b")), IntBox(1), IntBox2(2)]
   return ns, vals
 
 
